@@ -292,6 +292,7 @@ func C10(c *mc.Ctx) {
 	}
 	c10Roots(c)
 	c10Order(c)
+	c10History(c)
 	c.Set("evaluations", evals+c.Get("tx_lists_checked")+c.Get("tx_field_perturbations")+c.Get("receipt_field_perturbations"))
 	c.Assume("memkv has goleveldb's observable semantics")
 	c.Set("distinct_nontrivial", c.Get("distinct_change_sets"))
